@@ -28,7 +28,8 @@ const (
 	errEOF         = 5 // io.ErrUnexpectedEOF (connection dropped mid-body)
 	errTimeout     = 6 // *url.Error wrapping context.DeadlineExceeded (http.Client timeout)
 	errUnavailable = 7 // gRPC-status Unavailable: the only kind trillian's backoff.Retry itself retries (with pauses)
-	nErrKinds      = 7
+	errCanceled    = 8 // transport error wrapping context.Canceled (a proxy / dialer gave up), not the caller's context
+	nErrKinds      = 8
 )
 
 const fakeURI = "https://log.verif.example/c16"
@@ -47,6 +48,8 @@ func mkErr(kind int) error {
 		return io.ErrUnexpectedEOF
 	case errTimeout:
 		return &url.Error{Op: "Get", URL: fakeURI, Err: context.DeadlineExceeded}
+	case errCanceled:
+		return &url.Error{Op: "Get", URL: fakeURI, Err: fmt.Errorf("proxy: %w", context.Canceled)}
 	case errUnavailable:
 		return status.Error(codes.Unavailable, "backend unavailable")
 	}
